@@ -254,13 +254,13 @@ Agrees(c) == IF c.api = "ParseString"
              THEN LET r == RecognisePath(c.b) IN VerdictOf(r) = "acc" /\ SameFrags(r.v, c.d)
              ELSE LET r == RecogniseScript(c.b) IN VerdictOf(r) = "acc" /\ ShapeEq(Intended(c.it), Intended(r.v))
 
-VARIABLES k, written
-vars == <<k, written>>
+VARIABLES idx, written
+vars == <<idx, written>>
 \* every case is an initial state (checked in parallel); one extra step writes the case file
-Init == k \in 1..N /\ written = FALSE
-Write == k = 1 /\ ~written /\ written' = TRUE /\ k' = k
+Init == idx \in 1..N /\ written = FALSE
+Write == idx = 1 /\ ~written /\ written' = TRUE /\ idx' = idx
          /\ ndJsonSerialize("cases.ndjson", [n \in 1..N |-> [api |-> AllCases[n].api, b |-> AllCases[n].b]])
          /\ PrintT(<<"NCASES", N, Len(Scripts), Len(FilterFrags)>>)
 Spec == Init /\ [][Write]_vars
-AgreesInv == Agrees(AllCases[k])
+AgreesInv == Agrees(AllCases[idx])
 =============================================================================
